@@ -271,7 +271,7 @@ def run_checks(m):
         for c in checks_for(m):
             env = dict(os.environ, VERIF_REPO=d, VERIF_NPROC=os.environ.get("CHECK_NPROC", "4"), VERIF_SHRINK_BUDGET="20")
             try:
-                p = subprocess.run([os.path.join(VERIF, "check"), c, "--tier", "quick"], cwd=VERIF, env=env, capture_output=True, text=True, timeout=1500)
+                p = subprocess.run([os.path.join(VERIF, "check"), c, "--tier", "quick"], cwd=VERIF, env=env, capture_output=True, text=True, timeout=600)
                 v = sum(1 for ln in p.stdout.splitlines() if ln.startswith("VIOLATION"))
                 res[c] = {"exit": p.returncode, "violations": v}
                 if v:
